@@ -194,14 +194,9 @@ Proof.
   - (* EDrain *)
     destruct p; try discriminate. injection H as <-.
     destruct (B eq_refl) as [-> ->].
-    constructor; cbn [cap queue slot stopping rx pc passed swapped accepted handled drained
-                      released overlap late tr]; auto.
+    constructor; cbn; auto.
     + rewrite A. cbn [app]. rewrite app_nil_r. reflexivity.
-    + intros Hx; discriminate Hx.
-    + rewrite C. cbn [app]. rewrite app_nil_r. reflexivity.
-    + unfold shape. cbn [pc tr handled]. exact D.
-    + intros Hf. destruct k as [x|f]; [|destruct f]; cbn in Hf; try discriminate.
-      destruct (J2 eq_refl) as [Hs _]. split; [exact Hs|]. intros y [].
+    + rewrite C. rewrite app_nil_r. reflexivity.
   - (* EDropRx *)
     destruct p; try discriminate. injection H as <-.
     destruct k as [x|f]; constructor; cbn; auto;
